@@ -549,6 +549,12 @@ var (
 	pmmvErrMap     = &kernel.Error{Module: "verif", Message: "map seam: injected failure"}
 )
 
+// pmmvPT is a frame the map seam obtained from the registered frame allocator while serving map call AfterMap.
+type pmmvPT struct {
+	AfterMap int
+	Frame    uint64
+}
+
 type pmmvEnv struct {
 	info         *vlib.Arena
 	book         *vlib.Arena // bookkeeping memory handed to the allocator (nil before the request)
@@ -556,6 +562,8 @@ type pmmvEnv struct {
 	failReserve  bool
 	failMapAt    int // index of the map call that fails; -1 = none
 	maps         []pmmvMapCall
+	ptEvery      int      // the map seam asks mm.AllocFrame for a page-table frame on every ptEvery-th call (0 = never), as vmm.Map does when a table level is missing
+	pt           []pmmvPT // those frames
 	tooBig       bool
 	prevFault    bool
 	progress     int64 // bumped at every install; read by the watchdog
@@ -604,7 +612,23 @@ func (e *pmmvEnv) reset() {
 	}
 	e.reserveSizes = e.reserveSizes[:0]
 	e.maps = e.maps[:0]
+	e.pt = e.pt[:0]
 	e.failReserve, e.failMapAt, e.tooBig = false, -1, false
+}
+
+// earlySeq lists every frame the early allocator handed out during Init, in order: the backing frame of each
+// mapped bookkeeping page followed by the page-table frames the map seam asked for while mapping it.
+func (e *pmmvEnv) earlySeq() []uint64 {
+	var seq []uint64
+	k := 0
+	for i, mc := range e.maps {
+		seq = append(seq, mc.Frame)
+		for k < len(e.pt) && e.pt[k].AfterMap == i {
+			seq = append(seq, e.pt[k].Frame)
+			k++
+		}
+	}
+	return seq
 }
 
 func (e *pmmvEnv) close() {
@@ -627,6 +651,8 @@ func (e *pmmvEnv) install(cfg *pmmvConfig) {
 	multiboot.SetInfoPtr(e.info.PlaceTail(pmmvBuildInfo(cfg)))
 	reserveRegionFn = e.reserve
 	mapFn = e.mapPage
+	// a function of the configuration only: a third of the configurations each never / on every call / on every second call
+	e.ptEvery = int((uint64(len(cfg.Regions)) + uint64(cfg.Decoys) + cfg.KStart>>12 + cfg.KEnd) % 3)
 }
 
 func (e *pmmvEnv) reserve(size uintptr) (uintptr, *kernel.Error) {
@@ -656,6 +682,15 @@ func (e *pmmvEnv) mapPage(page mm.Page, frame mm.Frame, flags vmm.PageTableEntry
 	e.maps = append(e.maps, pmmvMapCall{uint64(page), uint64(frame), flags})
 	if e.failMapAt >= 0 && len(e.maps)-1 == e.failMapAt {
 		return pmmvErrMap
+	}
+	if e.ptEvery > 0 && (len(e.maps)-1)%e.ptEvery == 0 {
+		// the real vmm.Map takes the frames of missing page-table levels from the registered frame allocator,
+		// which during Init has to be the early allocator
+		f, err := mm.AllocFrame()
+		if err != nil {
+			return err
+		}
+		e.pt = append(e.pt, pmmvPT{len(e.maps) - 1, uint64(f)})
 	}
 	return nil
 }
